@@ -12,7 +12,39 @@
 _Static_assert(sizeof(struct value) == 16, "struct value has no padding");
 #undef value_is_equal
 #define value_is_equal(a, b) ((a)->type == (b)->type && (a)->i == (b)->i)
-#include "mux.c"               /* real: mux_get_input (outside breakdown.c, verified as written) */
+#include "bay.h"
+/* ---- bay (outside the unit): lookups and callback registration may fail; registrations are logged ---- */
+#define CBLOG 8
+unsigned g_cb_n; struct chan *g_cb_chan[CBLOG]; void *g_cb_func[CBLOG]; void *g_cb_arg[CBLOG]; int g_cb_en[CBLOG]; int g_cb_type[CBLOG];
+unsigned g_lowfail;          /* a lower layer refused (bay_find, bay_add_cb, calloc) */
+struct chan *bay_find(struct bay *bay, const char *name)
+{
+	(void) bay; (void) name;
+	if (nondet_bool()) { g_lowfail++; return NULL; }
+	struct chan *found = malloc(1);       /* any non-null pointer: mux_init only tests it */
+	if (found == NULL) g_lowfail++;
+	return found;
+}
+struct bay_cb *bay_add_cb(struct bay *bay, enum bay_cb_type type, struct chan *chan, bay_cb_func_t func, void *arg, int enabled)
+{
+	(void) bay;
+	if (g_cb_n < CBLOG) { g_cb_chan[g_cb_n] = chan; g_cb_func[g_cb_n] = (void *) func; g_cb_arg[g_cb_n] = arg; g_cb_en[g_cb_n] = enabled; g_cb_type[g_cb_n] = (int) type; }
+	g_cb_n++;
+	if (nondet_bool()) { g_lowfail++; return NULL; }
+	struct bay_cb *cb = malloc(sizeof(struct bay_cb));
+	if (cb == NULL) { g_lowfail++; return NULL; }
+	return cb;
+}
+void *calloc(size_t n, size_t sz)
+{
+	if (nondet_bool()) { g_lowfail++; return NULL; }
+	char *q = malloc(n * sz);
+	if (q == NULL) { g_lowfail++; return NULL; }
+	if (n * sz > 0) memset(q, 0, n * sz);
+	return q;
+}
+#include "chan.c"              /* real: chan_get_type, chan_prop_set (used by mux_init) */
+#include "mux.c"               /* real: mux_get_input, mux_init, mux_set_input, mux_set_default (outside breakdown.c, verified as written) */
 #ifdef C20_NANOS6
 #include "nanos6/breakdown.c"  /* the real /repo/src/emu/nanos6/breakdown.c */
 #else
@@ -90,4 +122,61 @@ void h_select_idle(void)
 	if (w_vt == VALUE_INT64 && w_vi == ST_PROGRESSING) REACH("progressing: tr selected");
 	if (w_vt == VALUE_INT64 && w_vi != ST_PROGRESSING) REACH("not progressing: idle state selected");
 	if (w_vt == VALUE_NULL) REACH("null idle state: idle input selected");
+}
+
+/* ================================================================= connect_cpu: the wiring itself */
+/* Succeeds iff tr and tri are single channels and no lower layer (bay_find, bay_add_cb, calloc) refused; then
+ *   mux0: select = CPU subsystem track, output = tr, selector = select_tr, inputs {0: subsystem, 1: task type},
+ *         default value int64 ST_UNKNOWN_SS
+ *   mux1: select = CPU idle track, output = tri, selector = select_idle, inputs {0: tr, 1: idle}
+ * and the six bay callbacks are registered (selects enabled, inputs disabled). */
+#ifdef C20_NANOS6
+#define MCPU struct nanos6_cpu
+#else
+#define MCPU struct nosv_cpu
+#endif
+#define BC (&mcpu->breakdown)
+#define SS (&mcpu->m.track[CH_SUBSYSTEM].ch)
+#define TT (&mcpu->m.track[CH_TYPE].ch)
+#define IDLE (&mcpu->m.track[CH_IDLE].ch)
+static inline int64_t def_t(struct mux *m) { struct value v = m->def; return v.type; }
+static inline int64_t def_i(struct mux *m) { struct value v = m->def; return v.i; }
+int w_tr_type, w_tri_type;
+#define OLD_TR_SINGLE (__CPROVER_old(mcpu->breakdown.tr.type) == CHAN_SINGLE)
+#define OLD_TRI_SINGLE (__CPROVER_old(mcpu->breakdown.tri.type) == CHAN_SINGLE)
+WITNESS(connect_cpu);
+#define CBROW(k, ch, fn, ar, en) (g_cb_chan[(k)] == (ch) && g_cb_func[(k)] == (void *) (fn) && g_cb_arg[(k)] == (void *) (ar) && g_cb_en[(k)] == (en) && g_cb_type[(k)] == BAY_CB_DIRTY)
+int c_connect_cpu(struct bay *bay, MCPU *mcpu)
+__CPROVER_requires(__CPROVER_is_fresh(mcpu, sizeof(MCPU)) && __CPROVER_is_fresh(mcpu->m.track, CH_MAX * sizeof(struct track)))
+__CPROVER_requires(g_cb_n == 0 && g_lowfail == 0 && DIAG_PRE)
+__CPROVER_requires(WBIND(connect_cpu, w_tr_type == (int) BC->tr.type && w_tri_type == (int) BC->tri.type))
+__CPROVER_assigns(BC->mux0, BC->mux1, BC->tr.prop[CHAN_DIRTY_WRITE], BC->tr.prop[CHAN_ALLOW_DUP], BC->tri.prop[CHAN_DIRTY_WRITE], BC->tri.prop[CHAN_ALLOW_DUP])
+__CPROVER_assigns(g_cb_n, __CPROVER_object_whole(g_cb_chan), __CPROVER_object_whole(g_cb_func), __CPROVER_object_whole(g_cb_arg), __CPROVER_object_whole(g_cb_en), __CPROVER_object_whole(g_cb_type), g_lowfail, DIAG_FRAME)
+__CPROVER_ensures(RV == 0 || RV == -1)
+__CPROVER_ensures((RV == 0) == (OLD_TR_SINGLE && OLD_TRI_SINGLE && g_lowfail == 0))
+__CPROVER_ensures(RV == 0 || g_err > __CPROVER_old(g_err))
+/* mux0 */
+__CPROVER_ensures(RV != 0 || (BC->mux0.select == SS && BC->mux0.output == &BC->tr && BC->mux0.select_func == select_tr && BC->mux0.ninputs == 2 && BC->mux0.bay == bay &&
+	BC->mux0.inputs[0].chan == SS && BC->mux0.inputs[1].chan == TT && BC->mux0.inputs[0].index == 0 && BC->mux0.inputs[1].index == 1 &&
+	BC->mux0.inputs[0].output == &BC->tr && BC->mux0.inputs[1].output == &BC->tr &&
+	def_t(&BC->mux0) == VALUE_INT64 && def_i(&BC->mux0) == ST_UNKNOWN_SS))
+/* mux1 */
+__CPROVER_ensures(RV != 0 || (BC->mux1.select == IDLE && BC->mux1.output == &BC->tri && BC->mux1.select_func == select_idle && BC->mux1.ninputs == 2 && BC->mux1.bay == bay &&
+	BC->mux1.inputs[0].chan == &BC->tr && BC->mux1.inputs[1].chan == IDLE && BC->mux1.inputs[0].index == 0 && BC->mux1.inputs[1].index == 1 &&
+	BC->mux1.inputs[0].output == &BC->tri && BC->mux1.inputs[1].output == &BC->tri && def_t(&BC->mux1) == VALUE_NULL))
+/* outputs accept repeated and duplicate writes (needed by the muxes) */
+__CPROVER_ensures(RV != 0 || (BC->tr.prop[CHAN_DIRTY_WRITE] == 1 && BC->tr.prop[CHAN_ALLOW_DUP] == 1 && BC->tri.prop[CHAN_DIRTY_WRITE] == 1 && BC->tri.prop[CHAN_ALLOW_DUP] == 1))
+/* callbacks: selects enabled, inputs disabled until selected */
+__CPROVER_ensures(RV != 0 || (g_cb_n == 6 &&
+	CBROW(0, SS, cb_select, &BC->mux0, 1) && CBROW(1, SS, cb_input, &BC->mux0.inputs[0], 0) && CBROW(2, TT, cb_input, &BC->mux0.inputs[1], 0) &&
+	CBROW(3, IDLE, cb_select, &BC->mux1, 1) && CBROW(4, &BC->tr, cb_input, &BC->mux1.inputs[0], 0) && CBROW(5, IDLE, cb_input, &BC->mux1.inputs[1], 0)))
+;
+void h_connect_cpu(void)
+{
+	struct bay *bay; MCPU *mcpu;
+	WITNESS_ON(connect_cpu);
+	int r = connect_cpu(bay, mcpu);
+	if (r == 0) REACH("breakdown muxes of a CPU connected");
+	if (r != 0 && g_lowfail == 0) REACH("refused: tr or tri is not a single channel");
+	if (r != 0 && g_lowfail != 0 && w_tr_type == CHAN_SINGLE && w_tri_type == CHAN_SINGLE) REACH("refused by a lower layer");
 }
